@@ -208,11 +208,11 @@ def featCore (repaired : Bool) (x : Iv) (score : Nat) (rgb : Nat × Nat × Nat) 
               (r0 :: rrest).length, sizes (r0 :: rrest), startsRel (if repaired then r0.1 else e0.1) (r0 :: rrest)⟩
       | _ => none
 
-/-- the code as it is -/
-def txToBed12 := txCore false
-def featToBed12 := featCore false
-/-- the code with the repair of F-C14a -/
-def txToBed12Repaired := txCore true
-def featToBed12Repaired := featCore true
+/-- the code as it is (with the repair of F-C14a, /repo commit f0d82c2) -/
+def txToBed12 := txCore true
+def featToBed12 := featCore true
+/-- the code BEFORE the repair of F-C14a (/repo commit f0d82c2), kept for the regression witness -/
+def txToBed12Before := txCore false
+def featToBed12Before := featCore false
 
 end BioCantor.Model.Bed
